@@ -93,7 +93,8 @@ def main():
             prev["checks_quick_tier"].update(res)
             out["checks_quick_tier"] = prev["checks_quick_tier"]
             out["caught_by"] = sorted(p for p, v in out["checks_quick_tier"].items() if v["exit"] == 1)
-    m = {"property": meta["property"], "summary": meta.get("summary"), "needs": meta.get("needs"),
+    rc, base = sh("git rev-parse --short HEAD", cwd=wt)
+    m = {"property": meta["property"], "base_commit": base.strip(), "summary": meta.get("summary"), "needs": meta.get("needs"),
          "files": meta.get("files"), "agent_tests_run": meta.get("tests_run"), "verified": out["ran"],
          "checks_quick_tier": out["checks_quick_tier"], "caught_by": out["caught_by"],
          "how_run": "tools/seeded.py verify: demo run with and without the change in the sub-agent's scratch "
